@@ -396,7 +396,23 @@ func (o *oracle) attemptEnd(a *addrState, tok attempt, ok bool) {
 	if ok {
 		simrt.Probe("attempt_succeeded")
 		if sure {
+			// A Schedule call that arrived while this attempt was running and
+			// has not started an attempt of its own may stay pending across the
+			// success (the connection just made was lost again before the
+			// callback returned); the chain restarts, so it counts as a trigger
+			// for retry 0 from the instant of the success. The statement does
+			// not require that it is honoured, only how long the wait is.
+			carried := false
+			for _, c := range a.slot {
+				if c.deadAt < 0 && (c.kind == "schedule" || c.kind == "driver-connect-failed") {
+					carried = true
+				}
+			}
 			o.resetReturn(a, "success")
+			if carried {
+				simrt.Probe("schedule_carried_over_success")
+				a.add(o, "schedule-during-successful-attempt")
+			}
 		} else {
 			// success of an attempt of an earlier chain: the implementation may or
 			// may not end the current chain
